@@ -3,7 +3,6 @@ package main
 // Running a check: solve, classify, known findings, replay files, evidence.
 
 import (
-	"sync"
 	"encoding/json"
 	"fmt"
 	"os"
@@ -11,6 +10,7 @@ import (
 	"regexp"
 	"sort"
 	"strings"
+	"sync"
 	"time"
 )
 
